@@ -238,10 +238,18 @@ class Server(object):
                 app.errors.append('status request with a body')
             app.status_requests += 1
             if mode == 'reply':
-                self._send(app, 0, string(st.get('json', '{}')),
-                           'status-response')
-                if st.get('close_after_reply'):
-                    self._close(app)
+                def reply():
+                    self._send(app, 0, string(st.get('json', '{}')),
+                               'status-response')
+                    if st.get('close_after_reply'):
+                        self._close(app)
+                if st.get('reply_delay_us'):
+                    # a slow server: it answers, only late
+                    self.sim.stat('fault.slow-reply')
+                    self.sim.after(st['reply_delay_us'], reply,
+                                   'status-reply-delay')
+                else:
+                    reply()
             elif mode == 'close_on_request':
                 self._close(app)
             elif mode == 'silent':
